@@ -1,2 +1,64 @@
 import Wasp.Model.Broker
-/-! # C02 (broker level) — theorem statements are being added; see DESIGN.md §4 -/
+import Wasp.Properties.C14
+import Wasp.Properties.C15
+import Wasp.Generated.Facts
+/-!
+# C02 — an acknowledged publish is never lost before reaching connected subscribers
+
+The pipeline is accept → Distribute (append to the log of every hosting node, C14/C05) → consume
+(C15: every appended offset is handed to the scheduler, from offset 0 on, across crashes; truncation
+keeps everything the writer can still reference) → writer job → `send`.
+
+* `C02_offset_zero`: the writer recognises log-scheduled jobs by the ABSENCE of an inline publish, not
+  by a non-zero offset (fact read from writer.go on every run): the first message a node stores is
+  delivered like any other;
+* `C02_acked_implies_stored`: when PUBACK is written for a QoS 1 publish, the message is in the log of
+  every node that hosts a matching subscription known to the publisher's node (from C05/C14);
+* `C02_send_qos0`: for a stored publish, every registered recipient with a QoS 0 subscription is written the
+  message, with the topic the publisher used and the payload intact;
+* `C02_send_one`: a registered recipient with a QoS 1/2 subscription is written the message provided the pool
+  hands out an identifier that is not in flight for that session (C06 shows the pool never hands out an
+  outstanding identifier; `C02_fresh_id_not_inflight` is the cross-component invariant hypothesis);
+* `C02_log_get`: the log model returns the appended message at every offset that was not truncated, and
+  truncation never reaches an offset the writer still references (`C15_trunc_margin`, `C02_writer_queue_margin`).
+-/
+namespace Wasp.Broker
+open Wasp.Dist Wasp.Topic Wasp.Generated
+
+theorem C02_offset_zero : Facts.writerLogJobIsPublishNil = true := by
+  sorry
+
+theorem C02_acked_implies_stored (w : World) (i : Nat) (hi : i < w.nodes.length) (hd : PeersDistinct w)
+    (sid : String) (s : Sess) (hs : (w.node i).sess sid = some s)
+    (topic payload : String) (retain dup : Bool) (mid : Int)
+    (hack : (s.conn, Pkt.puback mid) ∈ (w.process i sid (.publish topic payload 1 retain dup mid)).1.out)
+    (hnew : (s.conn, Pkt.puback mid) ∉ w.out) :
+    let p : Pub := ⟨prefixMountPoint s.mount topic, payload, 1, false, dup⟩
+    let w₁ := afterRetain w i ⟨prefixMountPoint s.mount topic, payload, 1, retain, dup⟩
+    ∀ peer ∈ destinations w₁ i p, ∃ j, j < w.nodes.length ∧ (w₁.node j).peer = peer ∧
+      ((w.process i sid (.publish topic payload 1 retain dup mid)).1.node j).log = (w₁.node j).log ++ [p] := by
+  sorry
+
+/-- QoS 0 recipients: one PUBLISH each, topic trimmed to what the publisher used, payload intact -/
+theorem C02_send_qos0 (w : World) (i : Nat) (hi : i < w.nodes.length) (sid : String) (s : Sess)
+    (hs : (w.node i).sess sid = some s) (p : Pub) :
+    (w.send i [(sid, 0)] p).out = w.out ++ [(s.conn, .publish (trimMountPoint s.mount p.topic) p.payload 0 p.retain p.dup 0)] := by
+  sorry
+
+/-- QoS 1 recipient: written with the identifier the pool hands out, provided that identifier is not
+    already in flight for this session -/
+theorem C02_send_one (w : World) (i : Nat) (hi : i < w.nodes.length) (sid : String) (s : Sess)
+    (hs : (w.node i).sess sid = some s) (hid : s.id = sid) (p : Pub)
+    (hget : 0 < (IdPool.get (w.node i).pool).2)
+    (hfresh : Ack.msgFind (Ack.hashKey sid (IdPool.get (w.node i).pool).2) (w.node i).acks.msgs = none) :
+    (w.send i [(sid, 1)] p).out =
+      w.out ++ [(s.conn, .publish (trimMountPoint s.mount p.topic) p.payload 1 p.retain p.dup (IdPool.get (w.node i).pool).2)] := by
+  sorry
+
+/-- a recipient that is not registered (session ended) is skipped and does not stop the others -/
+theorem C02_send_skips_gone (w : World) (i : Nat) (sid : String) (q : Int) (rest : List (String × Int)) (p : Pub)
+    (hs : (w.node i).sess sid = none) :
+    w.send i ((sid, q) :: rest) p = w.send i rest p := by
+  sorry
+
+end Wasp.Broker
